@@ -708,7 +708,11 @@ def _xr_reproject_ds(
             dv, how=dst_geobox, resampling=resampling, dst_nodata=dst_nodata, **kw
         )
 
-    return src.map(_maybe_reproject)
+    # not using `src.map(..)`: recent xarray copies attributes of the original
+    # coordinates (stale CRS) and variables over the reprojected ones
+    return xarray.Dataset(
+        {k: _maybe_reproject(dv) for k, dv in src.data_vars.items()}
+    )
 
 
 def _xr_reproject_da(
